@@ -266,3 +266,12 @@ def witness_search(tier, seed):
                         return dict(config=dict(level=level, BPMS=bpms, DISPLAYBPM=spec, ignore_specified=ignore),
                                     detail=f"displaybpm gave {got!r}; the statement prescribes {want!r}")
     return None
+
+# tables the statement pins down by value (props/constants_common.py)
+from props.constants_common import ClosedConstants   # noqa: E402
+UNITS = list(UNITS) + [ClosedConstants('chart-timing-properties')]
+
+
+# supplier units (see props/suppliers.py): TimingData parses its strings through BeatValues.from_str
+from props import suppliers as _S   # noqa: E402
+UNITS = _S.extend(UNITS, _S.beat_values())
